@@ -1,5 +1,5 @@
 """ops for the `amplification` component (vh-transport: real `s2n_quic_transport::path::Path`) / Lean driver.
-   ops: new server|client, recv <n>, send <n>, validate, query; histories are separated by `reset`.
+   ops: new server|client, recv <n>, send <n>, validate, query, cc <limited> <fast>; histories are separated by `reset`.
    `send` answers `err limited` when the path is at its amplification limit (datagram not started)."""
 SIZES = [1, 2, 20, 39, 40, 41, 100, 399, 400, 401, 1199, 1200, 1201, 1350, 1472, 9000, 65535]
 U32 = 2**32 - 1
@@ -20,6 +20,8 @@ def _exact(rng, recv, mult=3):
         if rng.random() < 0.2:
             ops.append("query")
     ops += ["query", "send 1", "query"]
+    if rng.random() < 0.5:
+        ops += [f"cc 1 {rng.choice([0, 1])}", "send 1", "cc 0 0", "query"]
     return ops
 
 
@@ -50,8 +52,12 @@ def _random(rng):
             ops.append(f"recv {rng.choice(SIZES + [0])}")
         elif c < 0.85:
             ops.append(f"send {rng.choice(SIZES + [0, 1200, 1200, 1200])}")
-        elif c < 0.93:
+        elif c < 0.90:
             ops.append("query")
+        elif c < 0.93:
+            # the congestion controller's verdict never outranks the amplification limit (close / probe senders
+            # consult transmission_constraint())
+            ops.append(f"cc {rng.choice([0, 1, 1])} {rng.choice([0, 0, 1])}")
         elif c < 0.97:
             ops.append("validate")
         else:
@@ -139,6 +145,10 @@ def oracle(ops, outs):
             # the flag the connection consults before starting a datagram must not say "go" without any credit at all
             if o[1] == "0" and recv == 0:
                 bad.append((i, "amp:open-without-receipt", f"path not limited although nothing was received ({op} -> {out})"))
+        if o and o[0] == "ok" and len(o) >= 4 and o[1] == "1" and o[2] != "AmplificationLimited":
+            # senders that bypass congestion control (connection close, probes) consult transmission_constraint():
+            # at the amplification limit it must say so whatever the congestion controller reports
+            bad.append((i, "amp:constraint-hides-limit", f"path at its amplification limit reports transmission constraint {o[2]} ({op} -> {out})"))
     return bad
 
 
